@@ -336,6 +336,70 @@ func init() {
 		wg.Wait()
 		return outs, nil
 	})
+	// two-phase pipeline through the Linter API: one collect run per part (WithCollectQuery +
+	// WithExportAggregates), exported maps merged key by key in the given order, then a report-only
+	// run WithAggregates(merged).
+	register("kernel.twophase", func(req map[string]any) (any, error) {
+		var c kCase
+		if err := decodeCase(req, &c); err != nil {
+			return nil, err
+		}
+		byName := map[string]kFile{}
+		for _, f := range c.Files {
+			byName[f.Name] = f
+		}
+		partsAny, _ := req["parts"].([]any)
+		exports := []map[string][]report.Aggregate{}
+		for _, pa := range partsAny {
+			names, _ := pa.([]any)
+			fs := []kFile{}
+			for _, n := range names {
+				s, _ := n.(string)
+				fs = append(fs, byName[s])
+			}
+			cc := c
+			cc.Collect, cc.Export, cc.Overridden = true, true, nil
+			l, err := buildLinter(&cc)
+			if err != nil {
+				return map[string]any{"error": "setup: " + err.Error()}, nil
+			}
+			in, err := inputOf(fs)
+			if err != nil {
+				return map[string]any{"error": "parse: " + err.Error()}, nil
+			}
+			rep, err := l.WithInputModules(&in).Lint(context.Background())
+			if err != nil {
+				return map[string]any{"error": err.Error()}, nil
+			}
+			exports = append(exports, rep.Aggregates)
+		}
+		merged := map[string][]report.Aggregate{}
+		for _, idx := range toAnySlice(req["mergeOrder"]) {
+			i := int(idx.(float64))
+			keys := make([]string, 0, len(exports[i]))
+			for k := range exports[i] {
+				keys = append(keys, k)
+			}
+			sort.Strings(keys)
+			for _, k := range keys {
+				merged[k] = append(merged[k], exports[i][k]...)
+			}
+		}
+		if len(merged) == 0 {
+			return map[string]any{"violations": [][]any{}, "nothingToReport": true}, nil
+		}
+		cc := c
+		cc.Collect, cc.Export, cc.Overridden = false, false, merged
+		l, err := buildLinter(&cc)
+		if err != nil {
+			return map[string]any{"error": "setup: " + err.Error()}, nil
+		}
+		rep, err := l.Lint(context.Background())
+		if err != nil {
+			return map[string]any{"error": err.Error()}, nil
+		}
+		return canonReport(rep, false), nil
+	})
 	register("kernel.lint", func(req map[string]any) (any, error) {
 		var c kCase
 		if err := decodeCase(req, &c); err != nil {
